@@ -228,11 +228,17 @@ def restructure_pkg(rng, pkg):
                 done.append(f'subpackage renamed to {new}')
         elif k < .75 and classes and len(pkgs) > 1:
             c = rng.choice(classes)
-            targets = [p for p in pkgs if p is not c.ePackage and all(x.name != c.name for x in p.eClassifiers)]
+            home = c.ePackage
+            targets = [p for p in pkgs if p is not home and all(x.name != c.name for x in p.eClassifiers)]
             if targets:
                 t = rng.choice(targets)
                 t.eClassifiers.append(c)
                 done.append(f'class {c.name} moved to package {t.name}')
+                if rng.random() < .5:
+                    # … and another classifier takes the name it had in its old package
+                    n = E.EClass(c.name) if rng.random() < .6 else E.EDataType(c.name, instanceClassName='int')
+                    home.eClassifiers.append(n)
+                    done.append(f'a new {type(n).__name__} named {c.name} added to package {home.name}')
         elif classes:
             c = rng.choice(classes)
             new = c.name + 'R'
